@@ -1398,6 +1398,10 @@ NvFlushHierarchy(TPMI_RH_HIERARCHY hierarchy  // IN: hierarchy to be flushed.
 			continue;
 		    // Get the index information
 		    NvReadNvIndexInfo(currentAddr, &nvIndex);
+		    // The live attributes (TPMA_NV_WRITTEN) of an orderly index are in RAM	// libtpms added begin
+		    if(IS_ATTRIBUTE(nvIndex.publicArea.attributes, TPMA_NV, ORDERLY))
+			nvIndex.publicArea.attributes = NvReadRamIndexAttributes(
+			    NvRamGetIndex(nvIndex.publicArea.nvIndex));			// libtpms added end
 
 		    // For storage hierarchy, flush OwnerCreated index
 		    if(!IS_ATTRIBUTE(nvIndex.publicArea.attributes, TPMA_NV, PLATFORMCREATE))
